@@ -474,6 +474,8 @@ CHECKS = {
             dict(name="random", run="TestC06Random", checks=dict(quick=20000, thorough=100000), shards=dict(quick=1, thorough=8)),
             dict(name="server", run="TestC06Server", checks=dict(quick=4000, thorough=20000), shards=dict(quick=1, thorough=8)),
             dict(name="inflight", run="TestC06InFlight", checks=dict(quick=3000, thorough=12000), shards=dict(quick=1, thorough=8)),
+            # the remove function of ONE registration called from 2-4 goroutines at once and again afterwards, while calls are in flight
+            dict(name="multiremove", run="TestC06MultiRemove", checks=dict(quick=3000, thorough=12000), shards=dict(quick=1, thorough=8)),
         ],
     ),
     "C17": dict(
